@@ -1,12 +1,18 @@
 package main
 
 import (
+	"errors"
 	"maps"
 	"reflect"
 	"slices"
 
 	"github.com/gopatchy/bkl"
 )
+
+// errReplaceParent signals that the change cannot be expressed at this
+// position (bkl refuses to merge across container kinds) and the enclosing
+// map has to be replaced as a whole.
+var errReplaceParent = errors.New("replace parent")
 
 func diffDoc(dst, src *bkl.Document) (any, error) {
 	doc, err := diff(dst.Data, src.Data)
@@ -45,7 +51,26 @@ func diff(dst, src any) (any, error) {
 			return nil, nil
 		}
 
+		if !replaceable(src) {
+			return nil, errReplaceParent
+		}
+
 		return dst2, nil
+	}
+}
+
+// replaceable reports whether bkl lets a value of another kind be layered
+// over src.
+func replaceable(src any) bool {
+	switch src2 := src.(type) {
+	case map[string]any:
+		return len(src2) == 0
+
+	case []any:
+		return false
+
+	default:
+		return true
 	}
 }
 
@@ -56,6 +81,10 @@ func diffMap(dst map[string]any, src any) (any, error) {
 
 	default:
 		// Different types
+		if !replaceable(src) {
+			return nil, errReplaceParent
+		}
+
 		return dst, nil
 	}
 }
@@ -71,6 +100,13 @@ func diffMapMap(dst, src map[string]any) (any, error) {
 		}
 
 		v3, err := diff(v, v2)
+		if errors.Is(err, errReplaceParent) {
+			ret = maps.Clone(dst)
+			ret["$replace"] = true
+
+			return ret, nil
+		}
+
 		if err != nil {
 			return nil, err
 		}
@@ -102,11 +138,19 @@ func diffList(dst []any, src any) (any, error) {
 		return diffListList(dst, src2)
 
 	default:
+		if !replaceable(src) {
+			return nil, errReplaceParent
+		}
+
 		return dst, nil
 	}
 }
 
 func diffListList(dst, src []any) (any, error) { //nolint:unparam
+	if reflect.DeepEqual(dst, src) {
+		return nil, nil
+	}
+
 	ret := []any{}
 
 outer1:
@@ -129,22 +173,49 @@ outer2:
 		}
 
 		v1Map, ok := v1.(map[string]any)
-		if ok {
-			del := map[string]any{
-				"$delete": maps.Clone(v1Map),
-			}
-			ret = append(ret, del)
-		} else {
-			// Give up patching individual entries, replace the whole list
-			dst = slices.Clone(dst)
-			dst = append(dst, map[string]any{"$replace": true})
-			return dst, nil
+		if !ok {
+			return replaceList(dst), nil
 		}
+
+		del := map[string]any{
+			"$delete": maps.Clone(v1Map),
+		}
+		ret = append(ret, del)
 	}
 
-	if len(ret) == 0 {
-		return nil, nil
+	if !reproduces(src, ret, dst) {
+		// Entry-level patching can't express reordering, duplicates, or
+		// deleting an entry that is a subset of one being kept
+		return replaceList(dst), nil
 	}
 
 	return ret, nil
+}
+
+func replaceList(dst []any) []any {
+	dst = slices.Clone(dst)
+	return append(dst, map[string]any{"$replace": true})
+}
+
+// reproduces reports whether layering patch over src yields exactly dst.
+func reproduces(src, patch, dst []any) bool {
+	p, err := bkl.New()
+	if err != nil {
+		return false
+	}
+
+	// MergeDocument merges into srcDoc in place, so work on a copy
+	srcDoc, err := bkl.NewDocumentWithData("src", map[string]any{"l": src}).Clone("copy")
+	if err != nil {
+		return false
+	}
+
+	patchDoc := bkl.NewDocumentWithData("patch", map[string]any{"l": patch})
+	patchDoc.AddParents(srcDoc)
+
+	if p.MergeDocument(srcDoc) != nil || p.MergeDocument(patchDoc) != nil {
+		return false
+	}
+
+	return reflect.DeepEqual(p.Documents()[0].Data, map[string]any{"l": dst})
 }
